@@ -205,4 +205,36 @@ def declareMutatingOrig (store : List Meta) (fs : List FieldSpec) : List Meta ×
     | some _ => (f.name, metaFlag (callerMeta store' f.metaId))
     | none => (f.name, f.node)))
 
+/-! ### class creation: which class object gets registered as a pytree
+
+`data_clz = dataclasses.dataclass(**kwargs)(clz)`; then `jax.tree_util.register_dataclass(data_clz, data_fields,
+meta_fields)` and `return data_clz`.  With `slots=True` the standard library builds a NEW class object (slots
+cannot be added to an existing class), so `data_clz is not clz`; with every other option it decorates `clz` in
+place.  Class objects are modelled by ids; `fresh` is the id a newly built class would get. -/
+
+structure StyleKw where
+  slots : Bool
+  kwOnly : Bool
+  frozen : Bool
+  subclass : Bool      -- the decorated class inherits from another struct dataclass
+  deriving Repr, DecidableEq
+
+/-- `dataclasses.dataclass(**kw)(clz)` -/
+def dataClz (kw : StyleKw) (clz fresh : Nat) : Nat := if kw.slots then fresh else clz
+
+structure Created where
+  returned : Nat                      -- the class the user gets (and instantiates)
+  registered : Nat                    -- the class registered with jax.tree_util
+  partition : List (String × Bool)    -- (field, is a pytree leaf)
+  deriving Repr, DecidableEq
+
+/-- `struct.dataclass(clz, **kw)` -/
+def structDataclass (kw : StyleKw) (clz fresh : Nat) (store : List Meta) (fs : List FieldSpec) : Created :=
+  let d := dataClz kw clz fresh
+  ⟨d, d, declare store fs⟩
+
+/-- NOT the shipped behaviour (kept for the counter-example): registering the class that was passed in -/
+def structDataclassRegistersArgOrig (kw : StyleKw) (clz fresh : Nat) (store : List Meta) (fs : List FieldSpec) : Created :=
+  ⟨dataClz kw clz fresh, clz, declare store fs⟩
+
 end Flax.Struct
